@@ -115,15 +115,18 @@ def _history(case):
             bins = []
             for c, k in enumerate(layout):
                 L = k * w - (rng.randint(0, w - 1) if w > 1 else 0)
-                bins += gen.chrom_bins(c, [w] * (k - 1) + [L - (k - 1) * w])
+                ws = [w] * (k - 1) + [L - (k - 1) * w]
+                if case.get("longbin") and len(layout) > 1 and c == len(layout) - 1:
+                    ws = [w + rng.randint(1, 2 * w)] * k if k == 1 else [w] * (k - 1) + [w + rng.randint(1, w)]
+                bins += gen.chrom_bins(c, ws)
         bdf = gen.bins_df(bins)
         base = []  # (path, uri) of coolers over the base table
         for step in range(case["steps"]):
-            opts = ["create", "create_chunks", "unordered", "empty"]
+            opts = ["create", "create_chunks", "create_unsorted_chunks", "unordered", "empty"]
             if base:
                 opts += ["merge", "merge", "coarsen", "coarsen", "zoomify", "append"]
             if step == 0:
-                opts = ["create", "create_chunks", "unordered"]
+                opts = ["create", "create_chunks", "create_unsorted_chunks", "unordered"]
             op = rng.choice(opts)
             px = gen.matrix_kinds(rng, n, symm)
             if op == "create":
@@ -142,6 +145,24 @@ def _history(case):
                 chunks = [px[a:b] for a, b in zip([0] + cuts, cuts + [len(px)])]
                 trail.append(["create-chunks", [len(c) for c in chunks]])
                 impl(cooler.create_cooler, p, bdf, (gen.pixels_df(c) for c in chunks), symmetric_upper=symm, ordered=True)
+                base.append(p)
+            elif op == "create_unsorted_chunks":
+                # chunks cover ascending row ranges but are shuffled inside; the validator is asked to sort them
+                p = newfile()
+                cuts = sorted(rng.randint(0, len(px)) for _ in range(rng.randint(0, 2)))
+                # cut only at row boundaries so that the chunk sequence stays globally ordered
+                cuts = [c for c in cuts if c == 0 or c == len(px) or px[c - 1][0] != px[c][0]]
+                chunks = [list(px[a:b]) for a, b in zip([0] + cuts, cuts + [len(px)])]
+                for c in chunks:
+                    rows = sorted({r[0] for r in c})
+                    if rng.random() < 0.5:
+                        # rows stay in order, columns inside a row do not
+                        c[:] = [r for row in rows for r in rng.sample([x for x in c if x[0] == row], len([x for x in c if x[0] == row]))]
+                    else:
+                        rng.shuffle(c)
+                trail.append(["create-unsorted-chunks(ensure_sorted)", [len(c) for c in chunks]])
+                impl(cooler.create_cooler, p, bdf, (gen.pixels_df(c) for c in chunks), symmetric_upper=symm, ordered=True,
+                     ensure_sorted=True)
                 base.append(p)
             elif op == "unordered":
                 p = newfile()
@@ -332,7 +353,10 @@ def nondecreasing(length, nvals):
 
 def cases(tier, rng):
     thorough = tier == "thorough"
-    # corpus
+    # corpus (minimised witnesses of seeded changes C02-1..3 first)
+    yield "rlencode", {"xs": [0, 0, 1, 1, 2, 2], "chunks": [1, 2, 3]}          # a run starting exactly on a block start
+    yield "history", {"seed": 11, "n": 5, "symm": True, "var": False, "layout": [3, 1, 1], "steps": 2, "scool": False, "longbin": True}
+    yield "history", {"seed": 12, "n": 6, "symm": False, "var": False, "layout": [6], "steps": 3, "scool": False}
     yield "rlencode", {"xs": [0, 0, 1, 1, 1, 3], "chunks": [1, 2, 3, 4, 5, 6, 7]}
     yield "index", {"xs": [2, 2, 5], "n": 7}
     yield "index", {"xs": [], "n": 3}
@@ -354,7 +378,7 @@ def cases(tier, rng):
         n = rng.randint(2, 8)
         yield "history", {"seed": rng.randrange(10 ** 9), "n": n, "symm": rng.random() < 0.7, "var": rng.random() < 0.3,
                           "layout": gen.split_layout(rng, n), "steps": rng.randint(2, 6 if thorough else 4),
-                          "scool": k % 7 == 0}
+                          "scool": k % 7 == 0, "longbin": k % 5 == 1}
     for k in range(30 if thorough else 6):
         yield "cli_load", {"seed": rng.randrange(10 ** 9), "n": rng.randint(2, 6), "fmt": "coo" if k % 2 else "pairs"}
     if thorough:
